@@ -85,10 +85,15 @@ MC.update({
             {"Configs": "c15_Configs", "Requests": "c15_Requests"}),
     "c15t": ({"MaxReq": "3", "MaxDie": "0", "ReqUntil": "2", "MaxNow": "6", "MaxPid": "6"},
              {"Configs": "c15_Configs", "Requests": "c15_Requests"}),
+    # reloadconfig: two reloads / one reload and one read-only request, a worker death anywhere
+    "c12": ({"MaxReq": "2", "MaxDie": "1", "ReqUntil": "6", "MaxNow": "9", "MaxPid": "7"},
+            {"Configs": "c12_Configs", "Requests": "c12_Requests"}),
+    "c12q": ({"MaxReq": "1", "MaxDie": "1", "ReqUntil": "6", "MaxNow": "9", "MaxPid": "7"},
+             {"Configs": "c12_Configs", "Requests": "c12_Requests"}),
 })
 
 PROPS = {
-    "C01": {"mc_quick": ["c01"], "mc_thorough": ["c01", "c01_deep"],
+    "C01": {"mc_quick": ["c01"], "mc_thorough": ["c01", "c01_deep", "c12q"],
             "profiles": {"default": (100, 2000), "count": (100, 3000)}, "conf": {"conf_full": (60, 800)}},
     "C02": {"mc_quick": ["c02q"], "mc_thorough": ["c02", "c02_deep"],
             "profiles": {"default": (80, 2000), "stop": (120, 3000)}, "conf": {"conf_full": (40, 600), "conf_pat": (30, 400)}},
@@ -108,7 +113,7 @@ PROPS = {
             "profiles": {"refusal": (250, 6000)}, "conf": {"conf_dir": (40, 500)}},
     "C13": {"mc_quick": ["c01"], "mc_thorough": ["c01", "c01_deep"],
             "profiles": {"default": (80, 2000), "count": (120, 3000)}, "conf": {"conf_full": (60, 800)}},
-    "C15": {"mc_quick": ["c15"], "mc_thorough": ["c15", "c15t"],
+    "C15": {"mc_quick": ["c15", "c12q"], "mc_thorough": ["c15", "c15t", "c12q", "c12"],
             "profiles": {"directory": (200, 5000)}, "conf": {"conf_dir": (80, 1000)}},
     "C08": {"mc_quick": ["c08q"], "mc_thorough": ["c08"],
             "profiles": {"shutdown": (200, 5000)}, "conf": {"conf_sig": (60, 800)}},
